@@ -2,7 +2,7 @@
 """re-generate the two tables of DESIGN.md 9.3 / 9.4 between their BEGIN/END markers"""
 import re, subprocess
 p = '/verif/DESIGN.md'; s = open(p).read()
-for tag, tool in (('STATUS_TABLE', 'status_table.py'), ('SEED_TABLE', 'seed_table.py')):
+for tag, tool in (('STATUS_TABLE', 'status_table.py'), ('SEED_TABLE', 'seed_table.py'), ('HARMLESS_TABLE', 'harmless_table.py')):
     t = subprocess.check_output(['python3', '/verif/tools/' + tool]).decode()
     s = re.sub(r'(<!-- %s_BEGIN[^>]*-->\n).*?(<!-- %s_END -->)' % (tag, tag), lambda m: m.group(1) + t + m.group(2), s, flags=re.S)
 open(p, 'w').write(s)
